@@ -1284,6 +1284,19 @@ class Interp:
                 return self.truth(z3.simplify(z3.Or(*[at(o_) for o_ in offs])))
             sa, sb = show(a.chars), show(b.chars)
             return sa.startswith(sb) if e('starts_with') else sa.endswith(sb) if e('ends_with') else sb in sa
+        if e('str::eq_ignore_ascii_case'):
+            A_, B_ = list(gg(args[0]).chars), list(gg(args[1]).chars)
+            if len(A_) != len(B_): return False
+            def low(c):
+                if isinstance(c, int): return c + 32 if 65 <= c <= 90 else c
+                return z3.If(z3.And(z3.UGE(c, 65), z3.ULE(c, 90)), c + 32, c)
+            conj = []
+            for x_, y_ in zip(A_, B_):
+                lx, ly = low(x_), low(y_)
+                if isinstance(lx, int) and isinstance(ly, int):
+                    if lx != ly: return False
+                else: conj.append((ly == lx) if isinstance(lx, int) else (lx == ly))
+            return self.truth(z3.simplify(z3.And(*conj))) if conj else True
         if e('str::to_uppercase') or e('str::to_lowercase'):
             a = gg(args[0])
             if has_sym(a): raise Unsupported('symbolic ' + base)
